@@ -608,6 +608,20 @@ func (r *rewriter) post(c *astapply.Cursor) bool {
 }
 
 func (r *rewriter) postCall(c *astapply.Cursor, n *ast.CallExpr) {
+	if r.isBuiltin(n.Fun, "make") && len(n.Args) >= 1 && !r.noWrap[n] {
+		// channels made while no simulation runs (package-level variables) do not belong to any
+		// synctest bubble: blocking on them is not "durably blocked".  simrt keeps a registry of
+		// them and polls instead of blocking (simrt.MadeChan is the identity).
+		if tv, ok := r.info.Types[n]; ok && tv.Type != nil {
+			if _, isChan := tv.Type.Underlying().(*types.Chan); isChan {
+				r.st.Sites["make-chan"]++
+				wrapped := &ast.CallExpr{Fun: n.Fun, Args: n.Args, Ellipsis: n.Ellipsis, Lparen: n.Lparen, Rparen: n.Rparen}
+				r.noWrap[wrapped] = true
+				c.Replace(r.call("MadeChan", wrapped))
+				return
+			}
+		}
+	}
 	if r.isBuiltin(n.Fun, "close") && len(n.Args) == 1 {
 		if r.noWrap[n] {
 			return // `defer close(ch)`: handled by wrapping below
@@ -787,6 +801,9 @@ func (r *rewriter) postSelect(c *astapply.Cursor, n *ast.SelectStmt) {
 					Rhs: []ast.Expr{r.call("SelRecv", sel, u.X)}})
 				u.X = &ast.StarExpr{X: h}
 			}
+		}
+		if nComm < len(n.Body.List) {
+			pre = append(pre, &ast.ExprStmt{X: &ast.CallExpr{Fun: &ast.SelectorExpr{X: sel, Sel: ast.NewIdent("HasDefault")}}})
 		}
 		pre = append(pre, &ast.ExprStmt{X: &ast.CallExpr{Fun: &ast.SelectorExpr{X: sel, Sel: ast.NewIdent("Poll")}}})
 	}
